@@ -10,6 +10,7 @@ import (
 	"strconv"
 	"strings"
 	"time"
+	"unsafe"
 
 	"github.com/failsafe-go/failsafe-go"
 	"github.com/failsafe-go/failsafe-go/bulkhead"
@@ -326,7 +327,23 @@ type Env struct {
 	ResE           error
 	DoneAt         int64
 	Ctx            context.Context
+	Exes           []*Exe
+	OnEnter        func(x *Exe, inv *Inv)
+	Held           int // permits held through a standalone API
+	Notes          string
+	Reduce         bool // observation points are scheduling points on the env (needed with the state cache)
 }
+
+// obs makes a harness observation an event that conflicts with every other observation, so that
+// the state cache explores both orders of two observations in different threads.
+func (env *Env) obs() {
+	if env.Reduce {
+		vrt.PointObj("obs", unsafe.Pointer(env))
+	}
+}
+
+//go:norace
+func (env *Env) note(s string) { env.Notes += s }
 
 // MapCache is an instrumented cachepolicy.Cache.
 type MapCache struct {
@@ -582,31 +599,59 @@ func (env *Env) Executor(ctx context.Context) failsafe.Executor[int] {
 	return ex.OnDone(env.doneEv(-1, "done")).OnSuccess(env.doneEv(-1, "success")).OnFailure(env.doneEv(-1, "failure"))
 }
 
+// Exe is one execution through the env's policies and what was observed of it.
+type Exe struct {
+	Env       *Env
+	ID        int
+	Script    []Out
+	Invs      []*Inv
+	Completed bool
+	ResV      int
+	ResE      error
+	DoneAt    int64
+	StartedAt int64
+	Ctx       context.Context
+	Cancel    func()
+}
+
+func (env *Env) NewExe(script []Out) *Exe {
+	x := &Exe{Env: env, ID: len(env.Exes), Script: script}
+	env.Exes = append(env.Exes, x)
+	return x
+}
+
 //go:norace
-func (env *Env) enter(exec failsafe.Execution[int]) (*Inv, Out) {
-	k := len(env.Invs)
-	o := env.Script[min(k, len(env.Script)-1)]
+func (x *Exe) enter(exec failsafe.Execution[int]) (*Inv, Out) {
+	env := x.Env
+	k := len(x.Invs)
+	o := x.Script[min(k, len(x.Script)-1)]
 	inv := &Inv{Index: k, Start: vrt.Elapsed(), Thread: vrt.ThreadID(), Exec: exec}
+	x.Invs = append(x.Invs, inv)
 	env.Invs = append(env.Invs, inv)
 	env.InFlight++
 	if env.InFlight > env.MaxFlight {
 		env.MaxFlight = env.InFlight
 	}
+	if env.OnEnter != nil {
+		env.OnEnter(x, inv)
+	}
 	return inv, o
 }
 
 //go:norace
-func (env *Env) exit(inv *Inv) {
+func (x *Exe) exit(inv *Inv) {
 	inv.End = vrt.Elapsed()
 	inv.Returned = true
-	env.InFlight--
+	x.Env.InFlight--
 }
 
 // Fn is the wrapped function: the k-th invocation (in start order) plays Script[k] (last repeats).
-func (env *Env) Fn(exec failsafe.Execution[int]) (int, error) {
+func (x *Exe) Fn(exec failsafe.Execution[int]) (int, error) {
 	vrt.EnterUser()
 	defer vrt.ExitUser()
-	inv, o := env.enter(exec)
+	env := x.Env
+	env.obs()
+	inv, o := x.enter(exec)
 	if !env.Quiet {
 		inv.Attempts, inv.Executions, inv.Retries, inv.Hedges = exec.Attempts(), exec.Executions(), exec.Retries(), exec.Hedges()
 		inv.IsHedge, inv.IsRetry, inv.IsFirst = exec.IsHedge(), exec.IsRetry(), exec.IsFirstAttempt()
@@ -636,8 +681,17 @@ func (env *Env) Fn(exec failsafe.Execution[int]) (int, error) {
 		inv.CanceledAtEnd = exec.IsCanceled()
 		inv.ExecutionsAtExit = exec.Executions()
 	}
-	env.exit(inv)
+	env.obs()
+	x.exit(inv)
 	return o.V, o.Err
+}
+
+// Fn of the env's first (usually only) execution.
+func (env *Env) Fn(exec failsafe.Execution[int]) (int, error) {
+	if len(env.Exes) == 0 {
+		env.NewExe(env.Script)
+	}
+	return env.Exes[0].Fn(exec)
 }
 
 func errStr(err error) string {
